@@ -18,7 +18,7 @@ from typing import TYPE_CHECKING, Generator, Optional, Union
 
 from icalendar.cal import Alarm, Event, Todo
 from icalendar.timezone import tzp
-from icalendar.tools import is_date, normalize_pytz, to_datetime
+from icalendar.tools import is_date, is_pytz, normalize_pytz, to_datetime
 
 if TYPE_CHECKING:
     from datetime import datetime
@@ -130,7 +130,7 @@ class AlarmTime:
         if self._snooze_until is not None and self._snooze_until > acknowledged:
             return True
         trigger = self.trigger
-        if trigger.tzinfo is None:
+        if getattr(trigger, "tzinfo", None) is None:
             raise LocalTimezoneMissing(
                 "A local timezone is required to check if the alarm is still active. "
                 "Use Alarms.set_local_timezone()."
@@ -143,8 +143,15 @@ class AlarmTime:
 
         If the alarm has been snoozed, this can differ from the TRIGGER property.
         """
-        if self._snooze_until is not None and self._snooze_until > self._trigger:
-            return self._snooze_until
+        if self._snooze_until is not None:
+            if getattr(self._trigger, "tzinfo", None) is None:
+                # dates and floating times cannot be compared with the snooze time in UTC
+                raise LocalTimezoneMissing(
+                    "A local timezone is required to check if the alarm is snoozed. "
+                    "Use Alarms.set_local_timezone()."
+                )
+            if self._snooze_until > self._trigger:
+                return self._snooze_until
         return self._trigger
 
 
@@ -335,7 +342,12 @@ class Alarms:
     def _alarm_time(self, alarm: Alarm, trigger:date):
         """Create an alarm time with the additional attributes."""
         if getattr(trigger, "tzinfo", None) is None and self._local_tzinfo is not None:
-            trigger = normalize_pytz(trigger.replace(tzinfo=self._local_tzinfo))
+            # dates start at midnight local time; pytz timezones must localize
+            trigger = to_datetime(trigger)
+            if is_pytz(self._local_tzinfo):
+                trigger = self._local_tzinfo.localize(trigger)
+            else:
+                trigger = trigger.replace(tzinfo=self._local_tzinfo)
         return AlarmTime(alarm, trigger, self._last_ack, self._snooze_until, self._parent)
 
     def _get_absolute_alarm_times(self) -> list[AlarmTime]:
